@@ -130,27 +130,27 @@ package rpc
 
 //@ func (*pbRequest).Unmarshal
 //@   case safety:
-//@     property C08 C11
+//@     property C08
 //@     requires req != nil && len(req.Upgrade) == 0 && len(req.ServiceMethod) == 0 && len(req.Args) == 0
 //@     loop 1: invariant offset <= length && sub(req.Upgrade, data) && sub(req.ServiceMethod, data) && sub(req.Args, data)
 //@     ensures implies(err == nil, sub(req.Upgrade, data) && sub(req.ServiceMethod, data) && sub(req.Args, data))
 
 //@ func (*pbResponse).Unmarshal
 //@   case safety:
-//@     property C08 C11
+//@     property C08
 //@     requires res != nil && len(res.Error) == 0 && len(res.Reply) == 0
 //@     loop 1: invariant offset <= length && sub(res.Error, data) && sub(res.Reply, data)
 //@     ensures implies(err == nil, sub(res.Error, data) && sub(res.Reply, data))
 
 //@ func (*request).Unmarshal
 //@   case safety:
-//@     property C08 C11
+//@     property C08
 //@     requires req != nil && len(req.Upgrade) == 0 && len(req.ServiceMethod) == 0 && len(req.Args) == 0
 //@     ensures implies(err == nil, sub(req.Upgrade, data) && sub(req.ServiceMethod, data) && sub(req.Args, data))
 
 //@ func (*response).Unmarshal
 //@   case safety:
-//@     property C08 C11
+//@     property C08
 //@     requires res != nil && len(res.Error) == 0 && len(res.Reply) == 0
 //@     ensures implies(err == nil, sub(res.Error, data) && sub(res.Reply, data))
 
@@ -321,6 +321,20 @@ package rpc
 //@   requires t != nil
 //@   ensures gg_ncall() == old(gg_ncall()) || (oneCallTo(addr) && implies(result == ErrShutdown, gb_markedDead(gg_gotpc())))
 //@   ensures implies(len(addr) == 0, result == ErrDial && gg_ncall() == old(gg_ncall()))
+//@ func (*Transport).RoundTrip
+//@   property C14 C04 C02
+//@   requires t != nil && call != nil && gf_tok(call) == 2 && !gb_internal(call) && (call.Done == nil || cap(call.Done) > 0)
+//@   ensures result == call
+//@   ensures [C02] gf_tok(call) != 2
+//@   ensures gg_ncall() == old(gg_ncall()) || oneCallTo(addr)
+//@   ensures implies(len(addr) == 0, gg_ncall() == old(gg_ncall()))
+//@ func (*Transport).Go
+//@   property C14 C04 C02
+//@   requires t != nil && (done == nil || cap(done) > 0)
+//@   ghostat (*Call).done#1: gf_tok(arg0) = 2
+//@   ensures result != nil
+//@   ensures gg_ncall() == old(gg_ncall()) || oneCallTo(addr)
+//@   ensures implies(len(addr) == 0, gg_ncall() == old(gg_ncall()) && result.Error == ErrDial)
 //@ func (*Transport).CallWithContext
 //@   property C14 C04 C19
 //@   requires t != nil && !isnil(ctx)
@@ -441,8 +455,14 @@ package rpc
 //@       float64(old(t.latency))*alpha + float64(new)*(1.0-alpha) < float64(t.latency) + 1.0)
 
 
+//@ extern reflect.DeepEqual
+//@   params a, b
+//@   ghostset gg_deqn() = gg_deqn() + 1
+//@   ghostset ggb_deq() = result
 //@ func (*Client).check
-//@   property C16 C18
+//@   property C16 C17 C18
+//@   ghostat store Client.pos#1: gg_posw() = gg_posw() + 1
+//@   ensures [C17] gg_posw() == old(gg_posw()) || (gg_deqn() == old(gg_deqn()) + 1 && !ggb_deq())
 //@   requires c != nil && t != nil
 //@   requires c.Alpha >= 0.0 && c.Alpha <= 1.0
 //@   loop 1: invariant forall(i, 0, len(l), liveT(c, l[i])) && fresh(l) && forall(i, 0, len(c.list), liveT(c, c.list[i])) && forall(i, 0, len(c.minHeap), liveT(c, c.minHeap[i]))
@@ -518,6 +538,7 @@ package rpc
 //@ func (*Client).detect
 //@   property C18 C16
 //@   requires c != nil && c.Alpha >= 0.0 && c.Alpha <= 1.0
+//@   atcall (*Client).checkPending#1: [C18] holds(Client_lock)
 //@   loop 1: invariant true
 
 // ---------------------------------------------------------------------------
@@ -693,7 +714,7 @@ package rpc
 //@   ghostset gg_putcall() = gg_putcall() + 1
 //@ func checkDone
 //@   requires done == nil || cap(done) > 0
-//@   ensures result != nil && implies(done != nil, result == done)
+//@   ensures result != nil && implies(done != nil, result == done) && cap(result) > 0
 
 //@ field Conn.codec: nonnil
 //@ pure usable(conn *Conn) bool = conn != nil
